@@ -20,7 +20,7 @@ def gen_config(rng, tier, dims=(1, 2, 2, 2, 3, 3, 4), max_steps=None, box_kinds=
         lmin, lmax = rng.choice([(1, 2), (2, 3), (1, 3)])
     if d == 3 and lmax > 3 and rng.random() < 0.5:
         lmin, lmax = 2, 3
-    kind, a, b = hooks.gen_box(rng, d, box_kinds)
+    kind, a, b = hooks.gen_box(rng, d, box_kinds or ["unit", "unit", "shifted", "negative", "aniso", "tiny", "huge", "dyadic", "integer"])
     steps_cap = max_steps or (14 if tier == "quick" else 40)
     if d >= 3:
         steps_cap = min(steps_cap, 8 if tier == "quick" else 14)
@@ -38,6 +38,8 @@ def gen_config(rng, tier, dims=(1, 2, 2, 2, 3, 3, 4), max_steps=None, box_kinds=
         "errseed": rng.randrange(2 ** 31),
     }
     cfg["recalc"] = rng.choice([None, None, None, 1, 3, 10])   # recalculate_frequently with this many refinements per restart
+    # how the caller hands over the domain: float arrays (default), lists / tuples, python ints or integer arrays on whole-number boxes
+    cfg["input_mode"] = rng.choice(hooks.INPUT_MODES) if (kind == "integer" or rng.random() < 0.1) else "float_array"
     if cfg["profile"] in ("equal", "zeros") and d >= 3:
         cfg["steps"] = min(cfg["steps"], 3)
     if cfg["profile"] in ("equal", "zeros"):
@@ -51,7 +53,7 @@ def build(cfg, f, observer, modified_basis=False, operation=None, grid=None):
     from sparseSpACE.Grid import GlobalTrapezoidalGrid
     from sparseSpACE.GridOperation import Integration
     from sparseSpACE.Utils import log_levels, print_levels
-    a, b = np.array(cfg["a"], dtype=float), np.array(cfg["b"], dtype=float)
+    a, b = hooks.typed(cfg["a"], cfg.get("input_mode", "float_array")), hooks.typed(cfg["b"], cfg.get("input_mode", "float_array"))
     if grid is None:
         grid = GlobalTrapezoidalGrid(a=a, b=b, boundary=cfg["boundary"], modified_basis=modified_basis)
     if operation is None:
@@ -78,7 +80,7 @@ def maybe_prior_run(rng, c, cfg, err, res, prob=0.15):
     if rng.random() >= prob:
         return False
     saved = c.vobs
-    c.vobs = None
+    c.vobs = hooks.Observer(10 ** 6)      # counts nothing that is judged; only its depth cap is wanted (float resolution on tiny boxes)
     lmin0 = rng.choice([1, cfg["lmin"]])
     lmax0 = lmin0 + rng.choice([1, 2])
     try:
